@@ -55,6 +55,37 @@ theorem C16_frame_roundtrip (m : Msg) (rest : Bytes) (h : m.wf) (hl : (encBody m
   rw [dec16_enc16 _ hl]
   simp [C16_codec_roundtrip m h]
 
+/-! ### the handshake messages -/
+
+def Hs.wf (h : Hs) : Prop :=
+  h.ver < 65536 ∧ h.version.length < 65536 ∧ h.short.length < 65536 ∧ h.commit.length < 65536 ∧ h.token.length < 65536
+
+/-- `Handshake` (protocol version, version, short and long commit id, token): decodes to what was encoded for
+strings of every length the 16-bit length field can carry. -/
+theorem C16_handshake_roundtrip (h : Hs) (hw : h.wf) : decHs (encHs h) = some h := by
+  obtain ⟨h0, h1, h2, h3, h4⟩ := hw
+  have ht := decData_encData h.token [] h4
+  simp only [List.append_nil] at ht
+  unfold decHs encHs
+  simp only [dec16_enc16 _ h0, decData_encData _ _ h1, decData_encData _ _ h2, decData_encData _ _ h3, ht]
+
+theorem decAddrs_encAddrs : ∀ (as : List AAddr), (∀ a ∈ as, a.wf) → decAddrs as.length (encAddrs as) = some as := by
+  intro as
+  induction as with
+  | nil => intro _; rfl
+  | cons a as ih =>
+    intro h
+    simp only [List.length_cons, encAddrs, decAddrs]
+    rw [decAddr_encAddr a _ (h a (by simp))]
+    simp only [ih (fun x hx => h x (by simp [hx])), Option.map_some]
+
+/-- `HandshakeResponse` (the addresses the agent is to listen on): any list the count byte can carry. -/
+theorem C16_handshake_response_roundtrip (as : List AAddr) (hn : as.length < 256) (hw : ∀ a ∈ as, a.wf) :
+    decResp (encResp as) = some as := by
+  unfold decResp encResp
+  simp only [u8, Nat.mod_eq_of_lt hn]
+  exact decAddrs_encAddrs as hw
+
 theorem sameAddr_iff (a b : AAddr) : sameAddr a b = true ↔ a.ip = b.ip ∧ a.port = b.port := by
   simp [sameAddr]
 
@@ -174,6 +205,8 @@ end HT.Agent
 /- OBLIGATIONS
 HT.Agent.C16_codec_roundtrip
 HT.Agent.C16_frame_roundtrip
+HT.Agent.C16_handshake_roundtrip
+HT.Agent.C16_handshake_response_roundtrip
 HT.Agent.C16_demux_exact
 HT.Agent.C16_eof_ends_exactly
 HT.Agent.C16_disconnect_ends_all
